@@ -68,7 +68,7 @@ def shape_tag(sel, kind, refac):
         return 'selection_is_an_operand_run_not_a_subexpression'
     if refac != 'extract_function':
         return None
-    if f.get('contains_await'):
+    if f.get('contains_await') or (kind == 'cursor' and f.get('cursor_expands_to_await')):
         return 'selection_contains_await'
     if kind == 'perturbed':
         return 'selection_boundary_inside_a_token'
